@@ -557,7 +557,7 @@ def run(chk):
     res = multi([(t, doc_exprs(ps)) for t, (_, _, ps, _) in zip(texts, cases)])
     resy = multi([(t, ["explode(.)"]) for t in texts], out="yaml")
     nviol = 0
-    c1, c2, c3 = [], [], []
+    c1, c2, c3, cdom = [], [], [], []
     for (doc, truth, ps, prof), text, rs, ry in zip(cases, texts, res, resy):
         stats["docs"] += 1
         cl = doc_classes(doc)
@@ -593,6 +593,7 @@ def run(chk):
             c1.append(("(%s, %s)" % (cd, coq_path(p)), as_bytes(obs(rs[2 * i])), (text, p)))
             c2.append(("(%s, %s)" % (cd, coq_path(p)), as_bytes(obs(rs[2 * i + 1])), (text, p)))
         c3.append((cd, as_bytes(obs(rs[-1])), (text, ())))
+        cdom.append((cd, b"\x00" if cl else b"\x01", (text, ())))
 
     # ---------------- multi-document streams: every document re-uses the same anchor names ----------------
     # (the anchor table - yaml.v3 and yq's anchorMap - is tested here, not modelled: oracle only)
@@ -650,8 +651,10 @@ def run(chk):
     disagreements = []
     for name, fn, cs in (("route1 (PATH)", "(fun c => show_res (route1 %d (fst c) (snd c)))" % FUEL, c1),
                          ("route2 (explode(.) | PATH)", "(fun c => show_res (route2 %d (fst c) (snd c)))" % FUEL, c2),
-                         ("route3 (-o=json .)", "(fun c => show_res (route3 %d c))" % FUEL, c3)):
-        mism, err = vlib.coq_mismatches(chk.workdir, "r%s" % name[5], IMPORTS, fn, [(c, e) for c, e, _ in cs], shard=250)
+                         ("route3 (-o=json .)", "(fun c => show_res (route3 %d c))" % FUEL, c3),
+                         # the decidable domain of the theorems (merge_simple_doc) = "no defect class" as the oracle computes it
+                         ("domain (merge_simple_doc)", "(fun c => [if merge_simple_doc %d c then 1 else 0]%%N)" % FUEL, cdom)):
+        mism, err = vlib.coq_mismatches(chk.workdir, "r%s" % name[5].replace("n", "d"), IMPORTS, fn, [(c, e) for c, e, _ in cs], shard=250)
         if err:
             broken.append("model evaluation failed (%s): %s" % (name, err[-600:]))
             continue
